@@ -121,4 +121,94 @@ theorem evQ_cast_refused_general (cfg : Cfg) (a : QExpr) (r : Numeric) (u₂ : L
   · exact Or.inl h
   · exact Or.inr (badOffset_of_misused h₂ hT₂ h)
 
+/-- `a ± b` for any expressions whose reference values carry units, one of them with a misused
+offset scale. -/
+theorem evQ_addsub_refused_general (cfg : Cfg) (op : BinOp) (hop : op = .add ∨ op = .sub)
+    (a b : QExpr) (ra rb : Numeric) (ha : evQ cfg a = some ra) (hb : evQ cfg b = some rb)
+    (na : ra.unit ≠ []) (nb : rb.unit ≠ []) (h : BadOffset ra.unit ∨ BadOffset rb.unit) :
+    evQ cfg (.bin op a b) = none := by
+  simp only [evQ, ha, hb]
+  rcases hop with rfl | rfl <;> exact addQ_refused ra rb _ na nb h
+
+/-- `a * b`, `a / b` for any expressions whose reference values carry units, one of them with an
+offset scale. -/
+theorem evQ_muldiv_refused_general (cfg : Cfg) (op : BinOp) (hop : op = .mul ∨ op = .div)
+    (a b : QExpr) (ra rb : Numeric) (ha : evQ cfg a = some ra) (hb : evQ cfg b = some rb)
+    (na : ra.unit ≠ []) (nb : rb.unit ≠ []) (h : HasOffset ra.unit ∨ HasOffset rb.unit) :
+    evQ cfg (.bin op a b) = none := by
+  simp only [evQ, ha, hb]
+  rcases hop with rfl | rfl <;> exact mulDivQ_refused cfg ra rb _ na nb h
+
+/-! ### Which error a refusal is -/
+
+theorem castKind_mem {T : Compound} {r : Numeric} {k : ErrKind} (h : castKind T r = some k) :
+    k = .illegalCast ∨ k = .conversionNotPossible := by
+  unfold castKind at h
+  cases hf : Compound.factor T r.unit r.value with
+  | error c => rw [hf] at h; cases h; exact Or.inr rfl
+  | ok o => cases o with
+    | none => rw [hf] at h; cases h; exact Or.inl rfl
+    | some v => rw [hf] at h; cases h
+
+theorem addKind_mem {a b : Numeric} {k : ErrKind} (h : addKind a b = some k) :
+    k = .illegalOperation ∨ k = .conversionNotPossible := by
+  unfold addKind at h
+  cases hf : Compound.factor a.unit b.unit b.value with
+  | error c => rw [hf] at h; cases h; exact Or.inr rfl
+  | ok o => cases o with
+    | none => rw [hf] at h; cases h; exact Or.inl rfl
+    | some v => rw [hf] at h; cases h
+
+theorem mulDivKind_refused (cfg : Cfg) (a b : Numeric) (div : Bool) (ha : a.unit ≠ [])
+    (hb : b.unit ≠ []) (h : HasOffset a.unit ∨ HasOffset b.unit) :
+    mulDivKind cfg a b div = some .conversionNotPossible := by
+  have : ∃ e, (e ∈ a.unit ∨ e ∈ b.unit) ∧ IsOffsetScale e.1 := by
+    rcases h with ⟨e, he, ho⟩ | ⟨e, he, ho⟩
+    · exact ⟨e, Or.inl he, ho⟩
+    · exact ⟨e, Or.inr he, ho⟩
+  obtain ⟨e, he, ho⟩ := this
+  unfold mulDivKind
+  rw [C09_mul_refused cfg.debug a.unit b.unit _ a.value b.value ha hb e he ho]
+
+/-- The error kinds of `a to u` for an `a` that has a value. -/
+theorem kinds_cast_of_some {cfg : Cfg} {a : QExpr} {r : Numeric} {u : List RTerm} {k : ErrKind}
+    (ha : evQ cfg a = some r) (h : Kinds cfg (.cast a u) k) :
+    k = .illegalCast ∨ k = .conversionNotPossible := by
+  simp only [Kinds] at h
+  rcases h with h | ⟨T, r', _, _, hk⟩
+  · exact absurd h (kinds_of_some cfg a r k ha)
+  · exact castKind_mem hk
+
+/-- The error kinds of `a ± b` for `a`, `b` that have values. -/
+theorem kinds_addsub_of_some {cfg : Cfg} {op : BinOp} (hop : op = .add ∨ op = .sub) {a b : QExpr}
+    {ra rb : Numeric} {k : ErrKind} (ha : evQ cfg a = some ra) (hb : evQ cfg b = some rb)
+    (h : Kinds cfg (.bin op a b) k) : k = .illegalOperation ∨ k = .conversionNotPossible := by
+  simp only [Kinds] at h
+  rcases h with h | h | ⟨ra', rb', _, _, hk⟩
+  · exact absurd h (kinds_of_some cfg a ra k ha)
+  · exact absurd h (kinds_of_some cfg b rb k hb)
+  · rcases hop with rfl | rfl <;> exact addKind_mem hk
+
+/-- The error kind of `a * b`, `a / b` for `a`, `b` that have values with units, one of them with
+an offset scale. -/
+theorem kinds_muldiv_of_some {cfg : Cfg} {op : BinOp} (hop : op = .mul ∨ op = .div) {a b : QExpr}
+    {ra rb : Numeric} {k : ErrKind} (ha : evQ cfg a = some ra) (hb : evQ cfg b = some rb)
+    (na : ra.unit ≠ []) (nb : rb.unit ≠ []) (ho : HasOffset ra.unit ∨ HasOffset rb.unit)
+    (h : Kinds cfg (.bin op a b) k) : k = .conversionNotPossible := by
+  simp only [Kinds] at h
+  rcases h with h | h | ⟨ra', rb', ha', hb', hk⟩
+  · exact absurd h (kinds_of_some cfg a ra k ha)
+  · exact absurd h (kinds_of_some cfg b rb k hb)
+  · rw [ha] at ha'; rw [hb] at hb'
+    cases ha'; cases hb'
+    rcases hop with rfl | rfl <;>
+    · simp only [binKind, mulDivKind_refused cfg ra rb _ na nb ho, Option.some.injEq] at hk
+      exact hk.symm
+
+theorem evQ_qty_of_read (cfg : Cfg) (l : Literal) {u : List RTerm} (h : UnitRead u)
+    (n : NonEmptyUnit (u.map rs)) :
+    ∃ T, unitOf u = some T ∧ evQ cfg (.qty l u) = some { value := value l, unit := T } ∧ T ≠ [] := by
+  obtain ⟨T, hT⟩ := (unitRuns_of_read h).2
+  exact ⟨T, hT, evQ_qty cfg l hT, unitOf_ne_nil h hT n⟩
+
 end Anything.C9Q
